@@ -34,15 +34,15 @@ type rcCall struct {
 }
 
 type rcWorld struct {
-	e      *Env
-	p      *Plan
-	rc     hrpc.RegionClient
-	calls  []*rcCall
-	byTask map[[2]int][]*rcCall
-	infos  map[string]hrpc.RegionInfo
-	done   int
+	e       *Env
+	p       *Plan
+	rc      hrpc.RegionClient
+	calls   []*rcCall
+	byTask  map[[2]int][]*rcCall
+	infos   map[string]hrpc.RegionInfo
+	done    int
 	dialErr error
-	dialed bool
+	dialed  bool
 }
 
 func (w *rcWorld) regionFor(table string, key []byte) hrpc.RegionInfo {
@@ -358,7 +358,7 @@ func runRC(p *Plan, keep bool, mode string) *Outcome {
 			out.Steps, out.FakeNS, out.Digest, out.NEv = e.Step, int64(e.Now()), e.Digest(), e.NEv
 			out.Stats = e.Stats
 			out.Trace = e.Trace
-			e.frozen = true
+			e.frozen.Store(true)
 			simrt.Free()
 			stop()
 			for _, cl := range w.calls {
@@ -460,7 +460,7 @@ func runRC(p *Plan, keep bool, mode string) *Outcome {
 		out.Stats = e.Stats
 		out.Trace = e.Trace
 		// teardown
-		e.frozen = true
+		e.frozen.Store(true)
 		simrt.Free()
 		stop()
 		for _, cl := range w.calls {
